@@ -419,6 +419,15 @@ def notify (w : World) (m : Nat) : World × List Ev :=
     let w3 := w2.retireOwn (.mon m) x.seqs
     (w3, reports)
 
+/-- `expectations<true,Sig>(expectations&&)`: both lists of every mock function change owner, order
+    kept; the moved-from object stays alive with empty lists. -/
+def moveMock (w : World) (o o' : Nat) (m : Mock) : World :=
+  let w1 : World := { w with nextO := o' + 1,
+                             exps := fun i => (w.exps i).map (fun (x : Exp) =>
+                               if x.obj = o && x.link != Link.unlinked then { x with obj := o' } else x) }
+  let w2 := w1.setMock o' { m with alive := true }
+  w2.setMock o { m with active := fun _ => [], saturated := fun _ => [] }
+
 def legal (w : World) : Op → Bool
   | .mock o _ => o == w.nextO
   | .seq s => s == w.nextS
@@ -466,12 +475,7 @@ def step (w : World) (op : Op) : World × List Ev :=
   | .move o o' =>
     match w.mocks o with
     | none => (w, [.badOp])
-    | some m =>
-      let w1 := { w with nextO := o' + 1,
-                         exps := fun i => (w.exps i).map (fun (x : Exp) =>
-                           if x.obj = o && x.link != Link.unlinked then { x with obj := o' } else x) }
-      let w2 := w1.setMock o' { m with alive := true }
-      (w2.setMock o { m with active := fun _ => [], saturated := fun _ => [] }, [])
+    | some m => (w.moveMock o o' m, [])
   | .kill o =>
     match w.mocks o with
     | some m => w.killMock o m
